@@ -3,9 +3,12 @@ package main
 import (
 	"fmt"
 	"os"
+	"strings"
 
 	"golang.org/x/tools/go/ssa"
 )
+
+var extraDebug = map[string]func(p *Program){}
 
 // debugCmd: `pdfcpu-verif debug returns <FuncID>` / `debug calls <FuncID>` — developer aid.
 func debugCmd(args []string) int {
@@ -13,6 +16,10 @@ func debugCmd(args []string) int {
 	if err != nil {
 		fmt.Println(err)
 		return 1
+	}
+	if len(args) >= 1 && extraDebug[args[0]] != nil {
+		extraDebug[args[0]](p)
+		return 0
 	}
 	if len(args) >= 1 && args[0] == "fsrefs" {
 		for _, r := range collectFSRefs(p) {
@@ -61,5 +68,38 @@ func init() {
 		for e, f := range ff.genE {
 			fmt.Printf("genE %d->%d %v\n", e.From.Index, e.From.Succs[e.Succ].Index, f)
 		}
+	}
+}
+
+func init() {
+	extraDebug["arrayidx"] = func(p *Program) {
+		n, unsafe := 0, 0
+		for _, fn := range p.Funcs {
+			fid := FuncID(fn)
+			if !strings.HasPrefix(fid, "pkg/pdfcpu") {
+				continue
+			}
+			eachInstr(fn, func(_ *ssa.BasicBlock, _ int, i ssa.Instruction) {
+				var x, idx ssa.Value
+				switch v := i.(type) {
+				case *ssa.IndexAddr:
+					x, idx = v.X, v.Index
+				case *ssa.Index:
+					x, idx = v.X, v.Index
+				default:
+					return
+				}
+				if typeNameOf(x.Type()) != "Array" {
+					return
+				}
+				n++
+				st := classifyIndex(fn, i, x, idx)
+				if st != "" {
+					unsafe++
+					fmt.Printf("%-60s %s  %s\n", fid, p.Pos(i.Pos()), st)
+				}
+			})
+		}
+		fmt.Println("array index sites:", n, "unproven:", unsafe)
 	}
 }
